@@ -367,6 +367,9 @@ class HdlcFrameReader(MeterReaderBase[HdlcFrame]):
     def _handle_flag_sequence(self) -> bool:
         frame_complete = False
 
+        # A flag sequence always ends a pending control escape. It must not leak into the next frame.
+        self._unescape_next = False
+
         if self._frame is None:
             _LOGGER.debug("Found flag sequence in frame hunt mode")
             self._start_frame()
